@@ -305,7 +305,7 @@ pub fn check_case(case: &CtxCase, legs: &[LegSpec], rep: &mut Report) {
 }
 
 pub fn run(ctx: &Ctx) -> Report {
-    let n = ctx.cases(1500, 60_000);
+    let n = ctx.cases(8000, 300_000);
     let thorough = ctx.is_thorough();
     crate::par_cases(ctx, 2, n, |rng, _i, rep| {
         let case = ctxgen::gen_case(rng);
